@@ -56,7 +56,7 @@ UNSTRUCT_SHAPES = ["bare", "qual", "fmt", "target", "kv", "multi", "qual_fmt_mul
 STRUCT_SHAPES = ["bare", "qual", "fmt", "kv", "kv2", "multi", "esc", "kv_short", "kv_short2", "kv_mixed", "kv_mixed2"]
 
 
-def render_stmt(shape, marker, macro, rid, structured, words, indent="    "):
+def render_stmt(shape, marker, macro, rid, structured, words, indent="    ", ref_last=False):
     """Render one log statement (with trailing newline). rid: planted ID or None."""
     msg = "%s %s" % (marker, words)
     name = macro
@@ -86,7 +86,10 @@ def render_stmt(shape, marker, macro, rid, structured, words, indent="    "):
         kvs = "attempt = 3, state:%"
     if structured:
         if rid is not None:
-            kvs = ("ref = %d, %s" % (rid, kvs)) if kvs else ("ref = %d" % rid)
+            if ref_last and kvs:
+                kvs = "%s, ref = %d" % (kvs, rid)   # an existing ref pair counts anywhere among the key-values
+            else:
+                kvs = ("ref = %d, %s" % (rid, kvs)) if kvs else ("ref = %d" % rid)
     else:
         if rid is not None:
             msg = "[ref: %d] %s" % (rid, msg)
@@ -159,7 +162,7 @@ class Gen:
         macro = rng.choice(macros or ["info", "warn", "error"])
         mk = self.marker()
         words = rng.choice(WORDS)
-        text = render_stmt(shape, mk, macro, rid, structured, words)
+        text = render_stmt(shape, mk, macro, rid, structured, words, ref_last=rng.random() < 0.3)
         return ["stmt", mk, text]
 
     def source_file(self, structured, nstmts, size_class, ids, shapes=None, crlf=False, unicode_p=0.0):
